@@ -411,3 +411,144 @@ def perp_distances(c, chem, cutoff, win=2):
                     t = xa @ dx
                     if 0 <= t <= d2: out.append(np.sqrt(max((xa @ xa * d2 - t * t) / d2, 0)))
     return out
+
+
+# ----------------------------------------------------------------------------------------- C22
+def kpt_lattices(tier, seed):
+    """(label, lattice) from all 2D and 3D systems plus seeded triclinic / oblique cells"""
+    rng = np.random.default_rng(seed + 22)
+    s3 = np.sqrt(0.75)
+    out = [('cubic', np.eye(3)), ('fcc', np.array([[0, .5, .5], [.5, 0, .5], [.5, .5, 0]])), ('bcc', np.array([[-.5, .5, .5], [.5, -.5, .5], [.5, .5, -.5]])),
+           ('hex', np.array([[0.5, 0.5, 0], [-s3, s3, 0], [0, 0, 1.6]])), ('tetragonal', np.diag([1., 1., 1.4])), ('ortho', np.diag([1., 1.2, 1.5])),
+           ('monoclinic', np.array([[1., 0, 0], [0.3, 1.1, 0], [0, 0, 1.3]]).T), ('rhombohedral', np.eye(3) + 0.2 * (np.ones((3, 3)) - np.eye(3))),
+           ('square2D', np.eye(2)), ('hex2D', np.array([[1, -0.5], [0, s3]])), ('rect2D', np.diag([1., 1.3])), ('oblique2D', np.array([[1, 0.3], [0, 1.2]]))]
+    for k in range(6 if tier == 'quick' else 30):
+        dim = 3 if k % 3 else 2
+        A = np.eye(dim) + 0.6 * rng.uniform(-1, 1, (dim, dim))
+        if abs(np.linalg.det(A)) < 0.3: continue
+        out.append(('triclinic-seeded-%d' % k if dim == 3 else 'oblique-seeded-%d' % k, A))
+    return out
+
+
+def w_kpt(arg):
+    idx, tier, seed = arg
+    from vf.common import repo_on_path; repo_on_path()
+    import warnings; warnings.filterwarnings('ignore')
+    from onsager import crystal
+    label, latt = kpt_lattices(tier, seed)[idx]
+    acc = Acc(label)
+    dim = latt.shape[0]
+    c = crystal.Crystal(latt, [[np.zeros(dim)]])
+    rng = np.random.default_rng(seed * 3 + idx)
+    W = 4
+    Gs = [c.reciplatt @ np.array(n) for n in itertools.product(range(-W, W + 1), repeat=dim) if any(n)]
+    # invariant periodic test functions: cosine sums over complete shells of lattice vectors
+    # (each shell is the complete point-group orbit of a lattice vector, so the function is invariant by construction)
+    seeds = sorted((c.lattice @ np.array(n) for n in itertools.product(range(-2, 3), repeat=dim) if any(n)), key=lambda R: R @ R)
+    shells = []
+    for R0 in seeds:
+        if any(any(np.allclose(R0, R, atol=1e-8) for R in sh) for sh in shells): continue
+        orb = []
+        for g in c.G:
+            R = g.cartrot @ R0
+            if not any(np.allclose(R, Q, atol=1e-8) for Q in orb): orb.append(R)
+        shells.append(orb)
+        if len(shells) == 6: break
+    meshes = [(4,) * dim, (5,) * dim, tuple([4, 5, 6][:dim]), tuple([3, 6, 2][:dim])] if tier == 'quick' else \
+        [(4,) * dim, (5,) * dim, tuple([4, 5, 6][:dim]), tuple([3, 6, 2][:dim]), (7,) * dim, tuple([8, 3, 5][:dim]), (1,) * dim]
+    for N in meshes:
+        kf = c.fullkptmesh(N)
+        acc.check(len(kf) == int(np.prod(N)), 'mesh-has-all-points', '%r: %d points' % (N, len(kf)))
+        out = sum(1 for k in kf if any(k @ k > (k - G) @ (k - G) + 1e-9 for G in Gs))
+        acc.check(out == 0, 'every-mesh-point-in-brillouin-zone', 'mesh %r: %d of %d points are closer to another reciprocal lattice point than to 0' % (N, out, len(kf)), sig=(N, 'bz'))
+        # distinct modulo the reciprocal lattice and equal to the regular grid
+        # a regular (possibly shifted) grid: differences are multiples of 1/N and the points are distinct modulo the reciprocal lattice
+        frac = np.array([np.linalg.solve(c.reciplatt, k - kf[0]) * np.array(N) for k in kf])
+        acc.check(np.allclose(frac, np.round(frac), atol=1e-8) and len({tuple(np.mod(np.round(f).astype(int), N)) for f in frac}) == len(kf),
+                  'mesh-is-a-regular-grid-modulo-reciprocal-lattice', '%r' % (N,), sig=(N, 'grid'))
+        ks, w = c.reducekptmesh(c.fullkptmesh(N))
+        acc.check(np.all(w > 0), 'weights-positive', '%r' % (N,))
+        acc.check(abs(np.sum(w) - 1) < 1e-12, 'weights-sum-to-one', '%r: %r' % (N, np.sum(w)), sig=(N, 'sum'))
+        for sh in shells:
+            f = lambda k: sum(np.cos(k @ R) for R in sh)
+            full = np.mean([f(k) for k in kf]); red = sum(wi * f(k) for k, wi in zip(ks, w))
+            acc.check(abs(full - red) < 1e-10 * (1 + abs(full)), 'reduced-mesh-average-equals-full-average',
+                      'mesh %r shell |R|=%.4f: full %r reduced %r' % (N, np.sqrt(sh[0] @ sh[0]), full, red), sig=(N, round(float(sh[0] @ sh[0]), 6)))
+    acc.sample = {'lattice': label, 'group_order': len(c.G), 'meshes': [list(m) for m in meshes], 'checked': 'BZ membership in a 9^d window, weights, invariant shell-cosine averages'}
+    return acc.result()
+
+
+# ----------------------------------------------------------------------------------------- C19
+def supercell_description(c, M, rng, noise=0.):
+    """the same crystal described in the supercell with integer matrix M, atoms shuffled (+ noise below threshold)"""
+    Minv = np.linalg.inv(M)
+    newb = []
+    for atoms in c.basis:
+        lst = []
+        for u in atoms:
+            for n in itertools.product(range(-5, 6), repeat=c.dim):
+                v = Minv @ (u + np.array(n))
+                if np.all(v > -1e-9) and np.all(v < 1 - 1e-9):
+                    if not any(np.allclose(_inhalf(v - w), 0, atol=1e-7) for w in lst): lst.append(v - np.floor(v + 1e-9))
+        order = rng.permutation(len(lst))
+        newb.append([lst[k] + noise * rng.uniform(-1, 1, c.dim) for k in order])
+    return c.lattice @ M, newb
+
+
+def w_reduce(arg):
+    idx, tier, seed = arg
+    from vf.common import repo_on_path; repo_on_path()
+    import warnings; warnings.filterwarnings('ignore')
+    from onsager import crystal
+    from vf.rtc import catalogue
+    cid, f = catalogue.builders(tier, seed)[idx]
+    c = f()['crys']; acc = Acc(cid)
+    rng = np.random.default_rng(seed * 19 + idx)
+    if c.N > 4 and tier == 'quick':
+        dets = (2,)
+    else:
+        dets = (2, 3) if tier == 'quick' else (2, 3, 4, 5, 6)
+    ntr = 0
+    for det in dets:
+        for trial in range(2 if tier == 'quick' else 4):
+            for _ in range(200):
+                M = rng.integers(-2, 3, size=(c.dim, c.dim))
+                if abs(round(np.linalg.det(M))) == det: break
+            else: continue
+            for noise in ((0.,) if trial else (0., 1e-10)):
+                L, b = supercell_description(c, M, rng, noise)
+                if any(len(x) != det * len(y) for x, y in zip(b, c.basis)): continue     # spec builder sanity
+                ntr += 1
+                sig = (cid, det)
+                try:
+                    c2 = crystal.Crystal(L, b, chemistry=c.chemistry)
+                except Exception as ex:
+                    acc.check(False, 'supercell-description-reduces-without-error', 'M=%s: %s: %s' % (M.tolist(), type(ex).__name__, ex), sig=sig); continue
+                acc.check(abs(c2.volume / c2.N - c.volume / c.N) < 1e-7, 'same-volume-per-atom', 'M=%s: %r vs %r' % (M.tolist(), c2.volume / c2.N, c.volume / c.N), sig=sig + ('vol',))
+                acc.check([len(x) for x in c2.basis] == [len(x) for x in c.basis], 'same-atoms-per-primitive-cell',
+                          'M=%s: %r vs %r' % (M.tolist(), [len(x) for x in c2.basis], [len(x) for x in c.basis]), sig=sig + ('N',))
+                acc.check(np.linalg.det(c2.lattice) > 0, 'right-handed-lattice', 'M=%s' % M.tolist())
+                acc.check(len(c2.G) == len(c.G), 'same-group-order', 'M=%s: |G| %d vs %d' % (M.tolist(), len(c2.G), len(c.G)), sig=sig + ('G',))
+    acc.sample = {'crystal': cid, 'supercell_descriptions': ntr, 'determinants': list(dets)}
+    return acc.result()
+
+
+def c19_orderings(arg):
+    """every atom ordering of n x 1 (x 1) supercells of simple cubic / square: the ordering-dependent failure of reduce"""
+    n, dim, tier, seed = arg
+    from vf.common import repo_on_path; repo_on_path()
+    import warnings; warnings.filterwarnings('ignore')
+    from onsager import crystal
+    acc = Acc('all-orderings-%dx1-dim%d' % (n, dim))
+    perms = list(itertools.permutations(range(n)))
+    for perm in perms:
+        latt = np.diag([float(n)] + [1.] * (dim - 1))
+        basis = [[np.array([k / n] + [0.] * (dim - 1)) for k in perm]]
+        try:
+            c = crystal.Crystal(latt, basis)
+            acc.check(c.N == 1 and abs(c.volume - 1) < 1e-9 and len(c.G) == (48 if dim == 3 else 8), 'supercell-description-reduces-to-primitive',
+                      'ordering %r: N=%d |G|=%d' % (perm, c.N, len(c.G)), sig=perm)
+        except Exception as ex:
+            acc.check(False, 'supercell-description-reduces-without-error', 'ordering %r: %s: %s' % (perm, type(ex).__name__, ex), sig=perm)
+    acc.sample = {'supercell': '%d x 1 of a primitive cell, dim %d' % (n, dim), 'orderings': len(perms), 'exhaustive': True}
+    return acc.result()
